@@ -24,6 +24,7 @@ func init() {
 			`R03.7 every concrete type stored in an interface-typed checkpoint field is gob-registered; ` +
 			`R03.8 both series loops consult ShouldSave inside the loop, request and pop a reader checkpoint on that edge, and offer the popped checkpoint; ` +
 			`R03.9 every path from reading a SyncOp / bsdiff Control to SaveConsumer.Save passes the application of that message (a checkpoint never sits between consuming a message and writing its bytes). ` +
+			`R03.3 also demands that every other field of an entry writer that has a Flush method (a bufio.Writer between Write and the file) is flushed, error checked, before the Sync in Save. ` +
 			`NOT decided: that the four layers agree at every interruption point, content equality after resume, savior's decompressor checkpoints.`,
 		Assumptions: []string{"checkpoint types are those reachable from patcher.Checkpoint inside the module plus the payload types stored into BowlCheckpoint.Data / WriterCheckpoint.Data"},
 		Run:         runC03,
@@ -351,13 +352,22 @@ func runC03(c *core.Ctx) {
 				continue
 			}
 			fileField, ovField := "", ""
+			var bufFields []string // anything else between Write and the file that holds bytes back (has a Flush method)
 			for i := 0; i < st.NumFields(); i++ {
 				ft := st.Field(i).Type()
 				if core.TypeName(ft) == "os.File" {
 					fileField = core.FieldNameOf(tn.Type(), st.Field(i))
+					continue
 				}
 				if core.TypeName(ft) == "pwr/overlay.OverlayWriter" {
 					ovField = core.FieldNameOf(tn.Type(), st.Field(i))
+					continue
+				}
+				ms := types.NewMethodSet(ft)
+				for j := 0; j < ms.Len(); j++ {
+					if ms.At(j).Obj().Name() == "Flush" {
+						bufFields = append(bufFields, core.FieldNameOf(tn.Type(), st.Field(i)))
+					}
 				}
 			}
 			save := c.P.Fn("pwr/bowl", nm+".Save")
@@ -387,6 +397,34 @@ func runC03(c *core.Ctx) {
 					p2 := ungatedPath(save, syc, rs.Ret, nil)
 					c.Check(p2 == nil, "R03.3", core.FnName(save), "Sync error is checked", core.InstrPos(sy),
 						"the checkpoint is returned only on the nil outcome of Sync", "a checkpoint is returned although Sync failed").Path = c.P.PathStrings(p2)
+				}
+			}
+			for _, bf := range bufFields {
+				bf := bf
+				isBufFlush := anyOf(fieldInvoke(bf, "Flush"), func(in ssa.Instruction) bool {
+					cl, ok := in.(*ssa.Call)
+					if !ok || cl.Call.IsInvoke() || len(cl.Call.Args) == 0 || !strings.HasSuffix(core.CalleeName(cl), ").Flush") {
+						return false
+					}
+					_, n, ok := core.FieldOf(cl.Call.Args[0])
+					return ok && n == bf
+				})
+				for _, sy := range allInstrs(save, isSync) {
+					p := core.FindPath(save, nil, isInstr(sy), isBufFlush)
+					c.Check(p == nil, "R03.3", core.FnName(save), "buffer "+bf+" is flushed before Sync", core.InstrPos(sy),
+						"what the writer still holds in "+bf+" is flushed before the file is synced", "the entry writer keeps written bytes in a buffer ("+bf+") that Save does not flush: the checkpointed offset counts bytes that are not in the file, and after a crash the resumed file has a hole below that offset").Path = c.P.PathStrings(p)
+					for _, fl := range allInstrs(save, isBufFlush) {
+						if flc, ok := fl.(*ssa.Call); ok {
+							for _, rs := range core.Returns(save, 0) {
+								if core.IsNilConst(rs.Val) {
+									continue
+								}
+								p2 := ungatedPath(save, flc, rs.Ret, nil)
+								c.Check(p2 == nil, "R03.3", core.FnName(save), "Flush error of "+bf+" is checked", core.InstrPos(fl),
+									"the checkpoint is returned only on the nil outcome of the flush", "a checkpoint is returned although flushing the buffer failed").Path = c.P.PathStrings(p2)
+							}
+						}
+					}
 				}
 			}
 			if ovField != "" {
@@ -530,6 +568,73 @@ func runC03(c *core.Ctx) {
 		c.Floor("R03.3", "entry writers owning an *os.File", nW, 2)
 	}
 
+	ruleWorkListDedup(c)
+
+	// ---- R03.7
+	registered := map[string]bool{}
+	for _, fn := range c.P.SrcFuncs() {
+		for _, cl := range core.Calls(fn, false, "encoding/gob.Register") {
+			registered[types.TypeString(core.StripConv(cl.Common().Args[0]).Type(), nil)] = true
+		}
+	}
+	nPay := 0
+	for _, k := range []fieldRef{{"pwr/bowl.BowlCheckpoint", "Data"}, {"pwr/bowl.WriterCheckpoint", "Data"}} {
+		for _, in := range written[k] {
+			st := in.(*ssa.Store)
+			mi, ok := st.Val.(*ssa.MakeInterface)
+			if !ok {
+				continue
+			}
+			nPay++
+			ts := types.TypeString(mi.X.Type(), nil)
+			c.Check(registered[ts], "R03.7", core.FnName(st.Parent()), "payload type "+core.TypeName(mi.X.Type())+" stored in "+k.typ+"."+k.field+" is gob-registered", core.InstrPos(st),
+				"gob.Register is called with this type", "the concrete type "+ts+" is stored in an interface-typed checkpoint field but never passed to gob.Register: serializing the checkpoint fails ('type not registered for interface')")
+		}
+	}
+	c.Floor("R03.7", "interface-typed checkpoint payload stores", nPay, 2)
+}
+
+// wireReadCall2 reports whether in fills a message from the wire.
+func wireReadCall2(in ssa.Instruction) bool {
+	cl, ok := in.(ssa.CallInstruction)
+	return ok && wireReadCall(cl) >= 0
+}
+
+// condOnlyAbout: the condition tests only values for which about() holds,
+// constants, or results of error checks / type assertions on them.
+func condOnlyAbout(cond ssa.Value, about func(ssa.Value) bool, open *ssa.Call) bool {
+	switch x := cond.(type) {
+	case *ssa.BinOp:
+		okSide := func(v ssa.Value) bool {
+			if _, isC := v.(*ssa.Const); isC {
+				return true
+			}
+			if about(v) {
+				return true
+			}
+			// error results (err != nil checks leading to returns are not what skips the seek)
+			if isErrorType(v.Type()) {
+				return true
+			}
+			return false
+		}
+		return okSide(x.X) && okSide(x.Y)
+	case *ssa.Extract:
+		// ok of a type assertion on the checkpoint payload
+		if ta, ok := x.Tuple.(*ssa.TypeAssert); ok {
+			return about(ta.X)
+		}
+	case *ssa.UnOp:
+		if x.Op == token.NOT {
+			return condOnlyAbout(x.X, about, open)
+		}
+	}
+	return false
+}
+
+// ruleWorkListDedup is R03.6 (shared with C02: what Commit moves and overlays is what these lists say).
+func ruleWorkListDedup(c *core.Ctx) {
+	c.Rule("R03.6", "work-list ownership and de-duplication")
 	// ---- R03.6
 	ob := c.P.Named("pwr/bowl", "overlayBowl")
 	if ob == nil {
@@ -599,64 +704,4 @@ func runC03(c *core.Ctx) {
 		c.Floor("R03.6", "appends to overlay bowl work lists", nApp, 1)
 	}
 
-	// ---- R03.7
-	registered := map[string]bool{}
-	for _, fn := range c.P.SrcFuncs() {
-		for _, cl := range core.Calls(fn, false, "encoding/gob.Register") {
-			registered[types.TypeString(core.StripConv(cl.Common().Args[0]).Type(), nil)] = true
-		}
-	}
-	nPay := 0
-	for _, k := range []fieldRef{{"pwr/bowl.BowlCheckpoint", "Data"}, {"pwr/bowl.WriterCheckpoint", "Data"}} {
-		for _, in := range written[k] {
-			st := in.(*ssa.Store)
-			mi, ok := st.Val.(*ssa.MakeInterface)
-			if !ok {
-				continue
-			}
-			nPay++
-			ts := types.TypeString(mi.X.Type(), nil)
-			c.Check(registered[ts], "R03.7", core.FnName(st.Parent()), "payload type "+core.TypeName(mi.X.Type())+" stored in "+k.typ+"."+k.field+" is gob-registered", core.InstrPos(st),
-				"gob.Register is called with this type", "the concrete type "+ts+" is stored in an interface-typed checkpoint field but never passed to gob.Register: serializing the checkpoint fails ('type not registered for interface')")
-		}
-	}
-	c.Floor("R03.7", "interface-typed checkpoint payload stores", nPay, 2)
-}
-
-// wireReadCall2 reports whether in fills a message from the wire.
-func wireReadCall2(in ssa.Instruction) bool {
-	cl, ok := in.(ssa.CallInstruction)
-	return ok && wireReadCall(cl) >= 0
-}
-
-// condOnlyAbout: the condition tests only values for which about() holds,
-// constants, or results of error checks / type assertions on them.
-func condOnlyAbout(cond ssa.Value, about func(ssa.Value) bool, open *ssa.Call) bool {
-	switch x := cond.(type) {
-	case *ssa.BinOp:
-		okSide := func(v ssa.Value) bool {
-			if _, isC := v.(*ssa.Const); isC {
-				return true
-			}
-			if about(v) {
-				return true
-			}
-			// error results (err != nil checks leading to returns are not what skips the seek)
-			if isErrorType(v.Type()) {
-				return true
-			}
-			return false
-		}
-		return okSide(x.X) && okSide(x.Y)
-	case *ssa.Extract:
-		// ok of a type assertion on the checkpoint payload
-		if ta, ok := x.Tuple.(*ssa.TypeAssert); ok {
-			return about(ta.X)
-		}
-	case *ssa.UnOp:
-		if x.Op == token.NOT {
-			return condOnlyAbout(x.X, about, open)
-		}
-	}
-	return false
 }
